@@ -93,6 +93,14 @@ impl Z80 {
         }
     }
 
+    /// Drops execution state which is not a part of architectural registers: halt,
+    /// pending prefix and interrupt-skip flag. Used when CPU state is replaced by a snapshot
+    pub fn reset_execution_state(&mut self) {
+        self.halted = false;
+        self.skip_interrupt = false;
+        self.active_prefix = Prefix::None;
+    }
+
     /// Pops program counter to the stack. Exposed as a public crate interface to support
     /// 48K SNA loading in `rustzx-core` and fast tape loaders (Perform RET)
     pub fn pop_pc_from_stack(&mut self, bus: &mut impl Z80Bus) {
